@@ -20,6 +20,7 @@ func TestDebugDump(t *testing.T) {
 		cfg.Reg, cfg.Pdu, cfg.Service, cfg.Release, cfg.Dereg = 2, 2, 1, 2, 2
 		c := &peCase{Level: "main", Cfg: cfg}
 		c.Sc = genScenario(t, cfg, 2, refamf.Policy{DistinctSUPI: true})
+		c.Sc.NGSetup.BackupAMFName = os.Getenv("PE_BACKUP")
 		return c
 	}).Example(7)
 	sp, err := c.spawnFor("debug")
